@@ -457,6 +457,13 @@ package fiber
 //@   atcall (*routeParser).parseRoute: pattern-in-normal-form: sameOrTrimmed(ite(called(@utils.ToLowerBytes), lower(rooted(old(pattern))), rooted(old(pattern))), str(patternPretty))
 //@   atcall (*routeParser).parseRoute: folded-iff-path-folded: called(@utils.ToLowerBytes) <==> called(@utils.ToLower)
 //@   atcall @utils.TrimRight: only-slashes-cut: cutset == '/'
+// session 5 (the copy `config = cfg[0]` is now modelled field by field): WHICH normalisation steps run is decided by the
+// caller's configuration - decoding iff UnescapePath, folding iff not CaseSensitive, trimming only without StrictRouting;
+// the zero Config when none is given. Stated where every path passes (the call that empties the parser).
+//@   atcall (*routeParser).reset: decoded-iff-configured: called(unescapePathBytes) <==> (len(cfg) > 0 && old(cfg[0].UnescapePath))
+//@   atcall (*routeParser).reset: folded-iff-not-case-sensitive: called(@utils.ToLowerBytes) <==> !(len(cfg) > 0 && old(cfg[0].CaseSensitive))
+//@   atcall (*routeParser).reset: trimmed-only-without-strict-routing: called(@utils.TrimRight) ==> !(len(cfg) > 0 && old(cfg[0].StrictRouting))
+//@   atcall (*routeParser).reset: untrimmed-pattern-under-strict-routing: len(cfg) > 0 && old(cfg[0].StrictRouting) ==> str(patternPretty) == ite(called(@utils.ToLowerBytes), lower(pattern), pattern)
 // the parser that decides was built from THIS call's normalised pattern: its leading literal is the unescaped text of a
 // prefix of that pattern (a parser kept from an earlier call was built for that call's configuration)
 //@   atcall (*routeParser).getMatch: parser-of-this-pattern: leadingLiteralOf(parser.segs, str(patternPretty))
